@@ -1,9 +1,9 @@
 SPECIFICATION GenSpec
 CONSTANTS
-  TN = {"a", "b"}
+  TN = {"a", "b", "c"}
   AN = {"x"}
-  RN = {"r", "s"}
-  MaxTypes = 2
+  RN = {}
+  MaxTypes = 3
 VIEW View
 INVARIANTS EmitState
 CHECK_DEADLOCK FALSE
